@@ -451,7 +451,19 @@ struct Node {
 
 fn run_chain(ctx: &mut Ctx, w: &World, rng: &mut Rng, chain_no: u64) {
     let nkeys = w.pool.len();
-    let base: i64 = 1_700_000_000 + (rng.below(1000) as i64) * 86_400;
+    // evaluation instants in several eras so that validity windows are encoded
+    // as UTCTime on both sides of the two-digit-year pivot and as GeneralizedTime
+    let era: i64 = match rng.below(8) {
+        0 => -473_385_600,            // 1955-01-01 (UTCTime year 55)
+        1 => -31_536_000,             // 1969-01-01
+        2 => 0,                       // 1970-01-01
+        3 => 946_684_800,             // 2000-01-01
+        4 => 2_524_608_000 - 86_400 * 200, // mid 2049, windows straddle 2049/2050
+        5 => 2_840_140_800,           // 2060-01-01 (GeneralizedTime)
+        6 => -631_152_000 + 86_400 * 400,  // early 1951, notBefore may fall before 1950
+        _ => 1_700_000_000,
+    };
+    let base: i64 = era + (rng.below(1000) as i64) * 86_400 + rng.below(86_400) as i64;
     let strict = rng.bool();
     // ---- trust anchor
     let ta_key = rng.usize_below(nkeys);
